@@ -126,6 +126,20 @@ fn do_op(g: &mut Box<dyn DynGen>, op: &Op, log: &mut Digest) -> Result<(), Strin
             g.long_jump();
             None
         }),
+        Op::TimerStats(v) => {
+            if g.kind() == Kind::Jitter {
+                guard(|| g.jitter().unwrap().timer_stats(*v)).map(|x| Some(Out::U64(x as u64)))
+            } else {
+                Ok(None)
+            }
+        }
+        Op::SetRounds(r) => {
+            if g.kind() == Kind::Jitter && *r > 0 {
+                guard(|| g.jitter().unwrap().set_rounds(*r)).map(|_| None)
+            } else {
+                Ok(None)
+            }
+        }
         Op::TestTimer => {
             // the timer test on this instance's own scripted clock; result and state afterwards
             // must not depend on whether any other JitterRng was calibrated before in this process
@@ -439,6 +453,10 @@ fn gen_inst(rng: &mut Prng) -> Inst {
         let ops: Vec<Op> = gen_output_ops(rng, Kind::Jitter, max_ops).into_iter().map(|o| if let Op::Fill(n) = o { Op::Fill(n % 17) } else { o }).collect();
         let mut ops = ops;
         let mut n_clock = 200;
+        if rng.chance(1, 3) {
+            let at = rng.below(ops.len() as u64 + 1) as usize;
+            ops.insert(at, if rng.chance(1, 2) { Op::TimerStats(rng.chance(1, 2)) } else { Op::SetRounds(rng.range(1, 3) as u8) });
+        }
         if rng.chance(1, 3) {
             // calibrate first, as the documented idiom does
             ops.insert(0, Op::TestTimer);
